@@ -1,6 +1,7 @@
 """C10: DictExporter proved in the text world against the recursive export predicate; DictImporter and the two round-trip
 sentences by the bounded stand-in (labelled)."""
 from contracts import dictio
+from pyvc import driver
 
 from . import common, json_props, seq_props
 
@@ -11,10 +12,14 @@ TRUSTED = seq_props.TRUSTED[:3] + [
     "ISEXP (the recursive export predicate) is well defined by recursion on the height of the tree (definitional axiom, both directions)",
 ]
 LEMMAS = [{"id": "L9", "statement": "import_(export(t)) is isomorphic to t; export(import_(d)) equals d up to empty 'children' lists; neither "
-           "call modifies its argument", "status": "not proved as a whole: DictImporter.__import is proved to copy its argument, pop 'children' "
-           "from the copy, construct one node from the remaining attributes and import every child in order under it (effect-log "
-           "contract); that this yields an isomorphic tree (through the constructor contract, C02) and the two round-trip sentences "
-           "are covered by the bounded stand-in"}]
+           "call modifies its argument", "status": "two halves. (1) On the code: DictExporter is proved against the recursive export "
+           "predicate ISEXP; DictImporter.__import is proved to copy its argument, pop 'children' from the copy, construct one node from "
+           "the remaining attributes and import every child in order under it (effect-log contract); neither writes to its argument "
+           "(frame). (2) On the abstraction (labelled rose trees / nested dictionaries with an optional 'children' list, export omitting "
+           "the key for leaves, import treating a missing key as no children): import(export t) = t, export(import d) = normalize d "
+           "(d with empty 'children' lists dropped), normalize(export t) = export t - " + driver.lean_status("L9_dict_roundtrip.lean") +
+           ". The link between the two halves (the effect log of __import builds, through the constructor contract of C02, the tree the "
+           "abstract import denotes; attribute dictionaries compare by ==) is by review and exercised by the bounded stand-in"}]
 
 
 IMPORT_BODY = '''
